@@ -364,3 +364,219 @@ Proof.
     assert (In k (map fst s0)) by (apply Hsub; apply in_map_iff; exists (k, v); auto).
     apply mem_key_In in H. rewrite H in Hk. discriminate.
 Qed.
+
+(* ------------------------------------------------------------------ what the reader accepts *)
+
+Definition entry_fine (e : tar_entry) : Prop :=
+  te_kind e = KReg /\
+  ((te_name e = build_id_path /\ exists b, te_data e = DBytes b) \/
+   (te_name e <> build_id_path /\
+    exists n p, entity_name (te_name e) = Some n /\ te_data e = DPayload p)).
+
+Fixpoint ent_list (es : list tar_entry) : list (str * payload) :=
+  match es with
+  | [] => []
+  | e :: r =>
+      if str_eqb (te_name e) build_id_path then ent_list r
+      else match entity_name (te_name e), te_data e with
+           | Some n, DPayload p => (n, p) :: ent_list r
+           | _, _ => ent_list r
+           end
+  end.
+
+Lemma NoDup_app_single {A} (l : list A) x : NoDup l -> ~ In x l -> NoDup (l ++ [x]).
+Proof.
+  induction l as [|y l IH]; cbn [app]; intros Hnd Hx; [constructor; [intros []|constructor]|].
+  inversion Hnd as [|? ? Hy Hl]; subst. constructor.
+  - intros Hin. apply in_app_or in Hin. destruct Hin as [Hin|[->|[]]]; [contradiction|].
+    apply Hx. left. reflexivity.
+  - apply IH; [exact Hl|]. intros Hin. apply Hx. right. exact Hin.
+Qed.
+
+Lemma read_loop_ok es :
+  forall found build pl b pl',
+    read_loop es found build pl = Ok (b, pl') ->
+    Forall entry_fine es /\ pl' = pl ++ ent_list es /\ b <> [] /\
+    (if found then build_entries es = [] /\ b = build
+     else exists e, build_entries es = [e] /\ te_data e = DBytes b) /\
+    (NoDup (map fst pl) -> NoDup (map fst pl')).
+Proof.
+  induction es as [|e es IH]; intros found build pl b pl' H; cbn [read_loop] in H.
+  - destruct found; cbn [negb] in H; [|discriminate].
+    destruct build as [|c r]; [discriminate|]. inversion H; subst.
+    repeat split; [constructor|rewrite app_nil_r; reflexivity|discriminate|auto].
+  - destruct (te_kind e) eqn:Ek; try discriminate.
+    cbn [build_entries filter ent_list].
+    destruct (str_eqb (te_name e) build_id_path) eqn:En.
+    + destruct found; [discriminate|]. destruct (te_data e) as [d|] eqn:Ed; [|discriminate].
+      destruct (IH true d pl b pl' H) as (F & P & Nb & [Bn Bb] & Nd). subst b.
+      apply str_eqb_eq in En.
+      repeat split; try assumption.
+      * constructor; [|exact F]. split; [exact Ek|]. left. split; [exact En|]. exists d. exact Ed.
+      * exists e. fold (build_entries es). rewrite Bn. split; [reflexivity|exact Ed].
+    + destruct (entity_name (te_name e)) as [n|] eqn:Een; [|discriminate].
+      destruct (mem_key n pl) eqn:Em; [discriminate|].
+      destruct (te_data e) as [|p] eqn:Ed; [discriminate|].
+      destruct (IH found build (pl ++ [(n, p)]) b pl' H) as (F & P & Nb & B & Nd).
+      assert (Hne : te_name e <> build_id_path).
+      { intros E. rewrite E, str_eqb_refl in En. discriminate. }
+      repeat split; try assumption.
+      * constructor; [|exact F]. split; [exact Ek|]. right. split; [exact Hne|].
+        exists n, p. split; [exact Een|exact Ed].
+      * rewrite P, <- app_assoc. reflexivity.
+      * intros Hnd. apply Nd. rewrite map_app. cbn [map fst].
+        apply NoDup_app_single; [exact Hnd|].
+        intros Hin. apply mem_key_In in Hin. congruence.
+Qed.
+
+Lemma read_archive_ok es b pl :
+  read_archive es = Ok (b, pl) ->
+  Forall entry_fine es /\ pl = ent_list es /\ b <> [] /\
+  (exists e, build_entries es = [e] /\ te_data e = DBytes b) /\ NoDup (map fst pl).
+Proof.
+  intros H. destruct (read_loop_ok es false [] [] b pl H) as (F & P & Nb & B & Nd).
+  repeat split; try assumption. apply Nd. constructor.
+Qed.
+
+Lemma read_archive_not_ok_err es :
+  (forall b pl, read_archive es <> Ok (b, pl)) -> exists e, read_archive es = Err e.
+Proof.
+  intros H. destruct (read_archive es) as [[b pl]|e|] eqn:E.
+  - exfalso. exact (H b pl eq_refl).
+  - exists e. reflexivity.
+  - exfalso. exact (read_loop_no_panic es false [] [] E).
+Qed.
+
+(** every way an archive can be malformed at the entry level is rejected by the reader *)
+Lemma malformed_archive_rejected es :
+  (exists e, In e es /\ ~ entry_fine e) \/
+  length (build_entries es) <> 1%nat \/
+  (exists e, build_entries es = [e] /\ te_data e = DBytes []) \/
+  ~ NoDup (map fst (ent_list es)) ->
+  exists e, read_archive es = Err e.
+Proof.
+  intros Hbad. apply read_archive_not_ok_err. intros b pl Hok.
+  destruct (read_archive_ok es b pl Hok) as (F & P & Nb & (e & Be & Bd) & Nd).
+  destruct Hbad as [(x & Hin & Hx)|[Hl|[(x & Bx & Dx)|Hd]]].
+  - rewrite Forall_forall in F. exact (Hx (F x Hin)).
+  - rewrite Be in Hl. apply Hl. reflexivity.
+  - rewrite Be in Bx. inversion Bx; subst. rewrite Bd in Dx. inversion Dx; subst. apply Nb. reflexivity.
+  - subst pl. exact (Hd Nd).
+Qed.
+
+Lemma load_all_read_err cfg build es s0 e :
+  read_archive es = Err e -> load_all cfg build es s0 = Err e.
+Proof. intros H. unfold load_all, load_all_with. rewrite H. reflexivity. Qed.
+
+(* ------------------------------------------------------------------ write then read *)
+
+Definition bytes_ok (s : str) : Prop := Forall (fun c => c < 256) s.
+
+Lemma keep_not_percent c : keep_byte c = true -> (c =? 37) = false.
+Proof. unfold keep_byte. lia. Qed.
+
+Lemma unhex_hexd x : x < 16 -> unhex (hexd x) = Some x.
+Proof.
+  intros H. unfold hexd, unhex. destruct (x <? 10) eqn:E.
+  - replace ((48 <=? 48 + x) && (48 + x <=? 57)) with true by lia. f_equal. lia.
+  - replace ((48 <=? 55 + x) && (55 + x <=? 57)) with false by lia.
+    replace ((97 <=? 55 + x) && (55 + x <=? 102)) with false by lia.
+    replace ((65 <=? 55 + x) && (55 + x <=? 70)) with true by lia. f_equal. lia.
+Qed.
+
+Lemma unescape_escape s : bytes_ok s -> path_unescape (path_escape s) = Some s.
+Proof.
+  induction 1 as [|c s Hc Hs IH]; [reflexivity|].
+  unfold path_escape in *. cbn [flat_map]. unfold esc_byte at 1.
+  destruct (keep_byte c) eqn:Ek.
+  - cbn [app path_unescape]. rewrite (keep_not_percent c Ek). rewrite IH. reflexivity.
+  - cbn [app path_unescape]. change (37 =? 37) with true. cbv iota.
+    rewrite !unhex_hexd by (try apply N.mod_lt; lia). rewrite IH. f_equal. f_equal. lia.
+Qed.
+
+Lemma strip_prefix_app p s : strip_prefix p (p ++ s) = Some s.
+Proof.
+  induction p as [|x p IH]; [destruct s; reflexivity|].
+  cbn [app strip_prefix]. rewrite N.eqb_refl. exact IH.
+Qed.
+
+Lemma entity_name_path n : bytes_ok n -> entity_name (entity_path n) = Some n.
+Proof.
+  intros H. unfold entity_name, entity_path. rewrite strip_prefix_app. apply unescape_escape. exact H.
+Qed.
+
+Lemma entity_path_not_build n : str_eqb (entity_path n) build_id_path = false.
+Proof. reflexivity. Qed.
+
+Definition mk_entry (np : str * payload) : tar_entry :=
+  mk_te KReg (entity_path (fst np)) (DPayload (snd np)).
+
+Lemma emit_entries_ok seen l t :
+  emit_entries seen l = Ok t ->
+  t = map mk_entry l /\ NoDup (map fst l) /\ (forall n, In n (map fst l) -> ~ In n seen).
+Proof.
+  revert seen t; induction l as [|[n p] l IH]; intros seen t H; cbn [emit_entries] in H.
+  - inversion H. repeat split; [constructor|intros n []].
+  - destruct (mem_str n seen) eqn:Em; [discriminate|].
+    destruct (emit_entries (n :: seen) l) as [t'|?|] eqn:Et; try discriminate.
+    inversion H; subst. destruct (IH _ _ Et) as (I1 & I2 & I3). subst t'.
+    split; [reflexivity|]. split.
+    + cbn [map fst]. constructor; [|exact I2]. intros Hin. apply (I3 n Hin). left. reflexivity.
+    + intros m [<-|Hm].
+      * intros Hs. apply mem_str_In in Hs. cbn [fst] in Hs. congruence.
+      * intros Hs. apply (I3 m Hm). right. exact Hs.
+Qed.
+
+Lemma emit_entries_nodup seen l :
+  NoDup (map fst l) -> (forall n, In n (map fst l) -> ~ In n seen) ->
+  emit_entries seen l = Ok (map mk_entry l).
+Proof.
+  revert seen; induction l as [|[n p] l IH]; intros seen Hnd Hs; [reflexivity|].
+  cbn [emit_entries]. cbn [map fst] in Hnd. inversion Hnd as [|? ? Hn Hl]; subst.
+  replace (mem_str n seen) with false.
+  - rewrite IH; [reflexivity|exact Hl|].
+    intros m Hm [<-|Hin]; [contradiction|]. apply (Hs m); [right; exact Hm|exact Hin].
+  - symmetry. apply not_true_iff_false. intros Hm. apply mem_str_In in Hm.
+    apply (Hs n); [left; reflexivity|exact Hm].
+Qed.
+
+Lemma read_loop_entries l :
+  Forall (fun np => bytes_ok (fst np)) l -> NoDup (map fst l) ->
+  forall b pl, b <> [] -> (forall n, In n (map fst l) -> ~ In n (map fst pl)) ->
+    read_loop (map mk_entry l) true b pl = Ok (b, pl ++ l).
+Proof.
+  induction l as [|[n p] l IH]; intros Hb Hnd b pl Hne Hdis.
+  - cbn. destruct b; [contradiction|]. rewrite app_nil_r. reflexivity.
+  - inversion Hb as [|? ? Hbn Hbl]; subst. cbn [fst] in Hbn.
+    cbn [map fst] in Hnd. inversion Hnd as [|? ? Hn Hl]; subst.
+    cbn [map read_loop mk_entry te_kind te_name te_data fst snd].
+    rewrite entity_path_not_build, (entity_name_path n Hbn).
+    replace (mem_key n pl) with false.
+    + rewrite (IH Hbl Hl b (pl ++ [(n, p)]) Hne); [rewrite <- app_assoc; reflexivity|].
+      intros m Hm Hin. rewrite map_app in Hin. apply in_app_or in Hin. destruct Hin as [Hin|[<-|[]]].
+      * apply (Hdis m); [right; exact Hm|exact Hin].
+      * contradiction.
+    + symmetry. apply not_true_iff_false. intros Hm. apply mem_key_In in Hm.
+      apply (Hdis n); [left; reflexivity|exact Hm].
+Qed.
+
+(** reading back what the writer wrote gives the build id and the name-sorted payloads *)
+Lemma read_write b entries es :
+  Forall (fun np => bytes_ok (fst np)) entries ->
+  write_archive b entries = Ok es ->
+  read_archive es = Ok (b, sort_name entries) /\
+  es = mk_te KReg build_id_path (DBytes b) :: map mk_entry (sort_name entries) /\
+  NoDup (map fst entries) /\ b <> [].
+Proof.
+  intros Hb H. unfold write_archive in H. destruct b as [|c r] eqn:Eb; [discriminate|]. rewrite <- Eb in *.
+  destruct (emit_entries [] (sort_name entries)) as [t|?|] eqn:Et; try discriminate.
+  inversion H; subst es. destruct (emit_entries_ok _ _ _ Et) as (I1 & I2 & _). subst t.
+  assert (Hne : b <> []) by (rewrite Eb; discriminate).
+  assert (Hperm : Permutation (sort_name entries) entries) by apply ks_sort_perm.
+  repeat split; try assumption.
+  - unfold read_archive. cbn [read_loop te_kind te_name te_data].
+    change (str_eqb build_id_path build_id_path) with true. cbv iota.
+    rewrite read_loop_entries; [reflexivity| |exact I2|exact Hne|intros n _ []].
+    rewrite Forall_forall in *. intros x Hx. apply Hb. eapply Permutation_in; [exact Hperm|exact Hx].
+  - eapply Permutation_NoDup; [|exact I2]. apply Permutation_map. exact Hperm.
+Qed.
